@@ -45,9 +45,18 @@ coordinates_to_parameter (double x, double y, double angle)
     while (t >= 2 * M_PI)
 	t -= 2 * M_PI;
 
-    return 1 - t * (1 / (2 * M_PI)); /* Scale t to [0, 1] and
-				      * make rotation CCW
-				      */
+    t = 1 - t * (1 / (2 * M_PI)); /* Scale t to (0, 1] and
+				   * make rotation CCW
+				   */
+
+    /* Angle 0 and angle 2 pi are the same ray: the parameter lives in
+     * [0, 1), like the angle it came from.  (1.0 is behind the last stop
+     * and transparent without a repeat.)
+     */
+    if (t >= 1.0)
+	t -= 1.0;
+
+    return t;
 }
 
 static uint32_t *
